@@ -108,6 +108,7 @@ type bWorld struct {
 	proj    *Project // the project of the last build step (for session steps)
 	inflight atomic.Int64 // evaluating events without their succeeded/failed yet
 	evalSeen sync.Map
+	fixedArgs []string // child builds: the command line decided by the parent
 }
 
 // value of the env atom of a target at a version, by value class; the sequences straddle
@@ -235,6 +236,24 @@ func (w *bWorld) writeBuildFiles() error {
 		for i := 0; i < w.comment; i++ {
 			fmt.Fprintf(&b, "# cosmetic comment %d\n\n", i)
 		}
+		// helper modules first: load statements lead the file
+		for _, n := range names {
+			t := w.shape.Targets[n]
+			switch t.Kind {
+			case "module":
+				fmt.Fprintf(&b, "load(\"//lib:vals_%s.dawn\", \"V_%s\")\n", n, n)
+			case "modfn":
+				fmt.Fprintf(&b, "load(\"//lib:vals_%s.dawn\", \"h_%s\")\n", n, n)
+			}
+			if t.Kind == "module" || t.Kind == "modfn" {
+				os.MkdirAll(filepath.Join(w.dir, "lib"), 0755)
+				val := bValue(w.values, w.envVer[n])
+				src := fmt.Sprintf("V_%s = %s\ndef h_%s():\n    return %s\n", n, val, n, val)
+				if err := os.WriteFile(filepath.Join(w.dir, "lib", "vals_"+n+".dawn"), []byte(src), 0644); err != nil {
+					return err
+				}
+			}
+		}
 		for _, n := range names {
 			t := w.shape.Targets[n]
 			class := w.values
@@ -282,6 +301,12 @@ func (w *bWorld) writeBuildFiles() error {
 				fmt.Fprintf(&b, "def _h_%s():\n    return %s\n@target(%s)\ndef _%s():\n%s    vexec(%q, _h_%s())\n\n", n, val, args, n, doc, n, n)
 			case "nested":
 				fmt.Fprintf(&b, "@target(%s)\ndef _%s():\n%s    def inner():\n        return %s\n    vexec(%q, inner())\n\n", args, n, doc, val, n)
+			case "flag":
+				fmt.Fprintf(&b, "F_%s = parse_flag(\"f_%s\", default=\"v1\")\n@target(%s)\ndef _%s():\n%s    vexec(%q, F_%s)\n\n", n, n, args, n, doc, n, n)
+			case "module":
+				fmt.Fprintf(&b, "@target(%s)\ndef _%s():\n%s    vexec(%q, V_%s)\n\n", args, n, doc, n, n)
+			case "modfn":
+				fmt.Fprintf(&b, "@target(%s)\ndef _%s():\n%s    vexec(%q, h_%s())\n\n", args, n, doc, n, n)
 			default: // global
 				fmt.Fprintf(&b, "K_%s = %s\n@target(%s)\ndef _%s():\n%s    vexec(%q, K_%s)\n\n", n, val, args, n, doc, n, n)
 			}
@@ -587,8 +612,36 @@ func (w *bWorld) records() (map[string]string, int) {
 
 // ---- steps -----------------------------------------------------------------------------------
 
+// flagArgs is the command line: the current value of every flag-kind target's flag.
+func (w *bWorld) flagArgs() []string {
+	if w.fixedArgs != nil {
+		return w.fixedArgs
+	}
+	args := []string{}
+	for n, t := range w.shape.Targets {
+		if t.Kind == "flag" && w.envVer[n] > 1 {
+			name := "f_" + n
+			if t.Pkg != "" {
+				name = strings.ReplaceAll(t.Pkg, "/", ".") + "." + name
+			}
+			args = append(args, fmt.Sprintf("--%s=v%d", name, w.envVer[n]))
+		}
+	}
+	sort.Strings(args)
+	return args
+}
+
+// envToken is the value a target's body sees for its env atom, as the body would print it.
+func (w *bWorld) envToken(n string) string {
+	if t := w.shape.Targets[n]; t != nil && t.Kind == "flag" {
+		return fmt.Sprintf("%q", fmt.Sprintf("v%d", w.envVer[n]))
+	}
+	return bValue(w.values, w.envVer[n])
+}
+
 func (w *bWorld) options() *LoadOptions {
 	return &LoadOptions{
+		Args:     w.flagArgs(),
 		Events:   &bEvents{w: w},
 		Builtins: starlark.StringDict{"vexec": starlark.NewBuiltin("vexec", w.vexec)},
 	}
@@ -734,7 +787,8 @@ func (w *bWorld) cleanCompare(root string) (bool, string) {
 		os.WriteFile(filepath.Join(tmp, rel), b, 0644)
 		return nil
 	})
-	cw := &bWorld{dir: tmp, shape: w.shape, values: w.values, rec: &sched.Recorder{}, fail: map[string]bool{}, hits: map[string]int{}}
+	cw := &bWorld{dir: tmp, shape: w.shape, values: w.values, rec: &sched.Recorder{}, fail: map[string]bool{}, hits: map[string]int{},
+		fixedArgs: w.flagArgs()}
 	proj, err := Load(tmp, cw.options())
 	if err != nil {
 		return true, ""
@@ -765,7 +819,12 @@ func (w *bWorld) apply(c *bCase, st *bStep, exe string) error {
 	switch st.Op {
 	case "edit_env":
 		w.envVer[st.T]++
-		w.logEvent("Edit", "kind", "env", "t", st.T, "v", bValue(w.values, w.envVer[st.T]), "mates", w.mates(st.T))
+		mates := w.mates(st.T)
+		if t := w.shape.Targets[st.T]; t != nil && (t.Kind == "flag" || t.Kind == "module" || t.Kind == "modfn") {
+			// the value lives on the command line or in a helper module: no build file changes
+			mates = []string{}
+		}
+		w.logEvent("Edit", "kind", "env", "t", st.T, "v", w.envToken(st.T), "mates", mates)
 		return w.writeBuildFiles()
 	case "edit_src":
 		if w.isDir(st.S) {
@@ -898,10 +957,11 @@ type bChildSpec struct {
 	Values string  `json:"values"`
 	Step   bStep   `json:"step"`
 	Log    string  `json:"log"`
+	Args   []string `json:"args"`
 }
 
 func (w *bWorld) childBuild(c *bCase, st *bStep, exe string) error {
-	spec := bChildSpec{Dir: w.dir, Shape: w.shape, Values: w.values, Step: *st, Log: filepath.Join(filepath.Dir(w.dir), filepath.Base(w.dir)+".childlog")}
+	spec := bChildSpec{Dir: w.dir, Shape: w.shape, Values: w.values, Step: *st, Log: filepath.Join(filepath.Dir(w.dir), filepath.Base(w.dir)+".childlog"), Args: w.flagArgs()}
 	os.Remove(spec.Log)
 	b, _ := json.Marshal(spec)
 	sp := spec.Log + ".spec"
@@ -974,7 +1034,10 @@ func TestVerifBuildChild(t *testing.T) {
 	}
 	rec := &sched.Recorder{}
 	w := &bWorld{dir: spec.Dir, shape: spec.Shape, values: spec.Values, rec: rec, hits: map[string]int{}, crash: spec.Step.Crash,
-		envVer: map[string]int{}, srcVer: map[string]int{}, unref: map[string]int{}}
+		envVer: map[string]int{}, srcVer: map[string]int{}, unref: map[string]int{}, fixedArgs: spec.Args}
+	if w.fixedArgs == nil {
+		w.fixedArgs = []string{}
+	}
 	// every event is appended to the log with one write before the action that follows it
 	rec.Sink = func(e sched.Event) {
 		bb, _ := json.Marshal(e)
@@ -1014,7 +1077,7 @@ func runBuildHistory(c *bCase, steps []bStep, base, exe string) (*bWorld, error)
 	}
 	// announce the initial tokens
 	for n := range w.shape.Targets {
-		w.logEvent("Edit", "kind", "env", "t", n, "v", bValue(w.values, 1))
+		w.logEvent("Edit", "kind", "env", "t", n, "v", w.envToken(n))
 	}
 	if c.Shape2 != nil {
 		for n := range c.Shape2.Targets {
